@@ -19,6 +19,9 @@ Definition sigs := list (ident * (list ty * ty)).
 Fixpoint slookup (f : ident) (F : sigs) : option (list ty * ty) :=
   match F with [] => None | (g, s) :: r => if N.eqb f g then Some s else slookup f r end.
 
+Fixpoint nodupb (l : list ident) : bool :=
+  match l with [] => true | x :: r => negb (existsb (N.eqb x) r) && nodupb r end.
+
 Definition is_void (t : ty) : bool := match t with TVoid => true | _ => false end.
 
 Definition ty_unop (o : unop) (t : ty) : option ty :=
@@ -122,7 +125,7 @@ Fixpoint returns (s : stmt) : bool :=
 Definition params_tenv (ps : list (ident * ty)) : tenv := rev (map (fun p => (fst p, (false, snd p))) ps).
 
 Definition wt_fn (d : fn) : bool :=
-  forallb (fun p => negb (is_void (snd p))) (fparams d) &&
+  (forallb (fun p => negb (is_void (snd p))) (fparams d) && nodupb (map fst (fparams d))) &&     (* parameters: typed, distinct names *)
   match wt_stmt (fret d) false (params_tenv (fparams d)) (fbody d) with Some _ => true | None => false end &&
   (is_void (fret d) || returns (fbody d)).
 End Check.
@@ -139,8 +142,6 @@ Fixpoint wt_globals (Gacc : tenv) (gs : list (ident * ty * expr)) : bool :=
 Fixpoint gtenv (gs : list (ident * ty * expr)) (acc : tenv) : tenv :=
   match gs with [] => acc | (x, t, _) :: r => gtenv r ((x, (false, t)) :: acc) end.
 
-Fixpoint nodupb (l : list ident) : bool :=
-  match l with [] => true | x :: r => negb (existsb (N.eqb x) r) && nodupb r end.
 
 Definition wt (p : program) : bool :=
   let F := sigs_of (pfns p) in
